@@ -27,4 +27,15 @@ PROPS = {
     },
 }
 
+PROPS["C02"] = {
+    "modules": ["C02"],
+    "required_theorems": ["C02_holds", "step_ban"],
+    "monitors": ["C02"],
+    "fields": ["ret", "net", "pj", "pd", "sj"],
+    "campaign": camp([("lifecycle", 400), ("mixed", 300), ("rollback", 200), ("chaos", 200), ("release", 100), ("signing", 100)],
+                     [("lifecycle", 6000), ("mixed", 5000), ("rollback", 3000), ("chaos", 3000), ("release", 2000), ("signing", 2000), ("damage", 2000)]),
+    "assumptions": ["the guarantee is stated (as in the property) for as long as the release stays and the state files are not damaged from outside: the monitor forgets its failed set at a release change or state-file damage",
+                    "process death is modelled at call boundaries (restart op); death inside a call is C04"],
+}
+
 SPECIAL = {}
